@@ -138,6 +138,19 @@ CHECKS["C11"] = dict(
     technique="TLA+ spec of generator interleavings, TLC exhaustive BFS; edge-cover replay (spec->code) and trace validation (code->spec)",
     design="5 C11")
 
+CHECKS["C01"] = dict(
+    text=("End-to-end: random definitions in the supported subset (header root, APID branches, 1-2 further inheritance levels, overlapping "
+          "criteria, shared nested container, every field kind incl. calibrated / enumerated / boolean / time / dynamic-length binary and "
+          "string fields) are loaded by the real library (constructors or XML in three spellings) and run on packets built by an "
+          "untrusted steering encoder and then mutated; for every packet TLC runs the Decode.tla walk (which composes Numeric, StrBin, "
+          "Calib and Criteria) with its step invariants and compares items, order, exact values, raw values, classes, views, outcome, "
+          "cursor and the generator-level classification; the whole stream through packet_generator is compared with the per-packet "
+          "results."),
+    note="Bounded/random exploration of documents (seeded), not exhaustive; cases whose referenced values leave the exact small domain are "
+         "undefined and accepted; character codecs trusted; mission documents are not yet replayed through an independent reader. " + TRUSTED,
+    technique="TLA+ specification of the whole decode path evaluated by TLC on randomly generated documents and streams; end-state conformance against the real generator",
+    design="5 C01")
+
 NOT_YET = {}
 for _i in range(1, 21):
     _p = f"C{_i:02d}"
